@@ -65,6 +65,9 @@ type EventOpts struct {
 	AllSelected    bool
 	MinSelected    int
 	NoBoolArray    bool // avoid bool[] (open C11 finding: array element type mapping)
+	// AllowTupleArray: the one selected array may be a tuple[] / tuple[k] of
+	// static components, selected inside the tuple
+	AllowTupleArray bool
 }
 
 // Event generates an event and marks selected inputs with column names.
@@ -85,6 +88,12 @@ func (g *G) Event(name string, o EventOpts) *model.Event {
 			}
 		case kind < 8 && o.AllowDynamic:
 			in.Type = g.pick([]string{"bytes", "string"})
+		case kind < 9 && o.AllowTupleArray && !usedArray && g.chance(50):
+			in.Type = g.pick([]string{"tuple[]", "tuple[]", "tuple[2]"})
+			for k := 0; k < g.between(1, 3); k++ {
+				in.Components = append(in.Components, model.Input{Name: fmt.Sprintf("a%dc%d", i, k), Type: g.pick(staticTypes)})
+			}
+			usedArray = true
 		case kind < 9 && o.AllowArray && !usedArray:
 			el := g.pick(staticTypes)
 			for o.NoBoolArray && el == "bool" {
@@ -114,7 +123,7 @@ func (g *G) Event(name string, o EventOpts) *model.Event {
 	nsel := 0
 	var sel func(in *model.Input, force bool)
 	sel = func(in *model.Input, force bool) {
-		if in.Type == "tuple" {
+		if strings.HasPrefix(in.Type, "tuple") {
 			for k := range in.Components {
 				sel(&in.Components[k], force)
 			}
@@ -130,9 +139,9 @@ func (g *G) Event(name string, o EventOpts) *model.Event {
 	}
 	for nsel < max(o.MinSelected, 1) {
 		i := g.R.IntN(len(ev.Inputs))
-		if ev.Inputs[i].Column == "" && ev.Inputs[i].Type != "tuple" {
+		if ev.Inputs[i].Column == "" && !strings.HasPrefix(ev.Inputs[i].Type, "tuple") {
 			sel(&ev.Inputs[i], true)
-		} else if ev.Inputs[i].Type == "tuple" {
+		} else if strings.HasPrefix(ev.Inputs[i].Type, "tuple") {
 			sel(&ev.Inputs[i], true)
 		} else if nsel >= 1 && o.MinSelected <= 1 {
 			break
@@ -159,7 +168,7 @@ func (g *G) Event(name string, o EventOpts) *model.Event {
 		if nsel <= 0 {
 			// make the first input selected (it precedes every unselected indexed input)
 			for i := range ev.Inputs {
-				if ev.Inputs[i].Type != "tuple" {
+				if !strings.HasPrefix(ev.Inputs[i].Type, "tuple") {
 					ev.Inputs[i].Column = "c_" + ev.Inputs[i].Name
 					// re-run the rule
 					seenUnsel = false
@@ -484,6 +493,12 @@ func GenC03(seed uint64) *Plan {
 	}
 	g.reorgFaults(p, g.between(1, 6))
 	p.Checks["settle"] = true
+	// "whatever batch size was in effect when the orphaned blocks were
+	// written": some runs restart the process with other source settings
+	if g.chance(35) {
+		p.Faults.CrashPerMille = g.pickInt([]int{3, 8, 15})
+		p.Faults.Reconfig = true
+	}
 	return p
 }
 
@@ -552,6 +567,7 @@ func GenC04(seed uint64) *Plan {
 		p.Checks["settle"] = true
 	}
 	p.Faults.CrashPerMille = g.pickInt([]int{0, 3, 8})
+	p.Faults.Reconfig = g.chance(40)
 	return p
 }
 
@@ -579,6 +595,7 @@ func GenC02x(seed uint64) *Plan {
 	p.Faults.PGPerMille = g.between(20, 150)
 	p.Faults.LostAck = true
 	p.Faults.CrashPerMille = g.pickInt([]int{3, 8, 15})
+	p.Faults.Reconfig = g.chance(40)
 	if g.chance(50) {
 		for _, d := range p.Decls {
 			g.hashedDecl(d)
@@ -633,8 +650,15 @@ func GenC06(seed uint64) *Plan {
 	if start == 0 && stop > 0 && stop < uint64(head) {
 		stop = uint64(head + g.between(0, 6))
 	}
-	d := g.randomDecl(p, 0, "t_ig0", start, stop, []int{30, 0})
-	p.Decls = append(p.Decls, d)
+	if g.chance(30) {
+		// the range also binds an integration that waits for others: its
+		// target is the smaller of the head and what its references recorded
+		g.depGraph(p, start, stop)
+		p.Checks["deps"] = true
+	} else {
+		d := g.randomDecl(p, 0, "t_ig0", start, stop, []int{30, 0})
+		p.Decls = append(p.Decls, d)
+	}
 	g.ensureEvents(p)
 	p.Faults.HealAt = g.between(100, 600)
 	p.Faults.GrowPerMille = g.pickInt([]int{0, 30, 80})
